@@ -10,7 +10,7 @@ use crate::{Ctx, evidence::Evidence};
 pub fn run(ctx: &Ctx) -> Evidence {
     let mut ev = ctx.evidence("C15", "exploration");
     ev.max_samples = 6;
-    let sessions = ctx.tier.pick(400u64, 50_000u64);
+    let sessions = ctx.tier.pick(4000u64, 50_000u64);
     ev.rule = format!(
         "(a) EXHAUSTIVE within its bound (this is what `exhaustive: true` refers to): all {n} x {n} = {pairs} pairs (grant g, \
          request r) of patterns over segments {{a, b, ?, #}} with 1..={pd} segments; for every pair with \
